@@ -192,6 +192,8 @@ def body_rules(run, model, rule_unheld="C10.body-unheld", rule_held="C10.body-he
         if role == "inv[new]":
             continue
         run.saw(res.wr.flow)
+        if (role.startswith("checker") and rule_unheld is None) or (not role.startswith("checker") and rule_held is None):
+            continue
         bodies = [(st, n) for k, st, n in res.event_states if k == "BODY"]
         if not bodies:
             run.violation(rule_unheld if role.startswith("checker") else rule_held, res.fi.qual, "the wrapper never calls the decorated function", res.fi.loc())
